@@ -638,13 +638,15 @@ def switch_labels(body, bi, t, alpha):
                 labels["otherwise"] = "sw:%s::{%s}%s" % (short_adt, ",".join(sorted(rest)), suffix)
         return labels
     # 2a. bool switch on a captured variable
-    if t.get("oty") == "bool" and alpha.upvar_bools and origs and all(x.kind == "upvar" and not x.proj for x in origs) and len({x.site for x in origs}) == 1:
+    if t.get("oty") == "bool" and alpha.upvar_bools and origs and all(x.kind == "upvar" for x in origs) and len({(x.site, tuple(e for e in x.proj if e != "*")) for x in origs}) == 1:
         idx = next(iter(origs)).site
+        # a captured bool, or a bool field of a captured struct / reference (`config.fail_on_timeout`): upvar3.f1
+        name = "upvar%d%s" % (idx, "".join("." + e for e in next(iter(origs)).proj if e != "*"))
         for (val, _b) in t["targets"]:
-            labels[val] = "bool:upvar%d=%d" % (idx, int(int(val) != 0))
+            labels[val] = "bool:%s=%d" % (name, int(int(val) != 0))
         vals = {int(v) != 0 for (v, _) in t["targets"]}
         if len(vals) == 1:
-            labels["otherwise"] = "bool:upvar%d=%d" % (idx, int(not next(iter(vals))))
+            labels["otherwise"] = "bool:%s=%d" % (name, int(not next(iter(vals))))
         return labels
     # 2. bool switch on a call result
     if t.get("oty") == "bool" and alpha.bools:
